@@ -336,7 +336,14 @@ def gen_mt(rng, tier):
 
 
 def oracle_mt(case, obs):
-    return oracles.note_failures(obs, ("probe_mismatch", "logging_raised", "foreign_exception", "hang", "thread_failed"))
+    bad = oracles.note_failures(obs, ("probe_mismatch", "logging_raised", "foreign_exception", "hang", "thread_failed"))
+    if bad:
+        return bad
+    for i, ms in obs.get("raw", {}).items():
+        bad = oplists.attribution(case, ms)
+        if bad:
+            return bad
+    return None
 
 
 def nontrivial_mt(case, obs):
